@@ -151,6 +151,7 @@ def lastCall (ops : List TOp) (p : Nat) : Option Bool :=
       match op with
       | .trust q => if q == p then some true else none
       | .distrust q => if q == p then some false else none
+      | .handshake _ => none      -- calling the open endpoints is not a Trust call: it grants nothing
 
 /-- is the remote peer `p` trusted under the setting -/
 def specTrusted (ts : TrustSetting) (p : Nat) : Bool :=
